@@ -64,10 +64,28 @@ def formula_set(tier):
     return out
 
 
+def modular_set(tier):
+    """(inlined formula, sub-spec texts, top text): named sub-formulas (also arithmetic ones) shared by several predicates"""
+    from . import c09
+    X, Y = F.X, F.Y
+    ax = ('abs', X)
+    fs = [('and', ('pred', '<=', ax, Y), ('pred', '>=', ax, F.C1)),
+          ('or', ('pred', '>=', ax, F.C1), ('pred', '>', ('-', Y, ax), F.C0)),
+          ('and', ('once', (0, 1), F.PX), ('or', MIX, ('prev', ('once', (0, 1), F.PX)))),
+          ('implies', ('pred', '>=', ('neg', Y), F.C0), ('historically', (0, 1), ('pred', '<', ('neg', Y), X)))]
+    out = []
+    for f in fs:
+        for subs, text, defs, top in c09.variants_any(f, 4 if tier == 'quick' else 30, arith=True):
+            out.append((f, subs, text))
+    return out
+
+
 def shards(tier):
     fs = formula_set(tier)
     per = 4 if tier == 'quick' else 2
-    return [{'formulas': [F.to_json(f) for f in fs[i:i + per]]} for i in range(0, len(fs), per)]
+    out = [{'formulas': [F.to_json(f) for f in fs[i:i + per]]} for i in range(0, len(fs), per)]
+    out += [{'modular': i} for i in range(len(modular_set(tier)))]
+    return out
 
 
 def dense_ok(f):
@@ -105,7 +123,7 @@ def check_case(case):
     vs = case['vars']
     kind, pastify, sem, io = case['kind'], case['pastify'], case['semantics'], case['io']
     hook = make_hook(sem, io)
-    spec = impl.build(kind, case['spec'], vs, io_types=io, semantics=sem, pastify=pastify)
+    spec = impl.build(kind, case['spec'], vs, io_types=io, semantics=sem, pastify=pastify, subspecs=tuple(case.get('subspecs', ())))
     if kind.startswith('dt'):
         w = case['data']
         n = len(next(iter(w.values())))
@@ -153,10 +171,15 @@ def check_case(case):
 def run_shard(shard, tier, res):
     mod = sys.modules[__name__]
     quick = tier == 'quick'
-    for fj in shard['formulas']:
+    if 'modular' in shard:
+        f, subs, mtext = modular_set(tier)[shard['modular']]
+        todo = [(F.to_json(f), list(subs), mtext)]
+    else:
+        todo = [(fj, [], None) for fj in shard['formulas']]
+    for fj, subs, mtext in todo:
         f = F.from_json(fj)
         vs = sorted(F.fvars(f))
-        text = 'out = ' + F.pr(f)
+        text = mtext or ('out = ' + F.pr(f))
         res.formulas += 1
         n = 3 if len(vs) == 1 else 2
         if not quick:
@@ -182,7 +205,7 @@ def run_shard(shard, tier, res):
                 for sem in SEMS:
                     for di, (data, chunk) in enumerate(datas):
                         case = {'formula': fj, 'spec': text, 'vars': vs, 'kind': kind, 'pastify': pastify, 'semantics': sem, 'io': io,
-                                'data': data, 'chunk': chunk}
+                                'data': data, 'chunk': chunk, 'subspecs': subs}
                         res.evaluations += 1
                         try:
                             msg, ref = check_case(case)
